@@ -251,6 +251,20 @@ def _build_store(case):
             c["window"] = w
         contexts.append(c)
     cfg = Config({"contexts": contexts})
+    if case.get("frontend") == "numpy_masked":
+        # the same table through NumpyStream, the data given as MASKED arrays (a missing value is a masked element
+        # with some number under the mask): in the saved frame a masked element is an empty cell of the data column
+        from ioos_qc.streams import NumpyStream
+        inp = {sid: np.ma.array(np.array([7.0 if v is None else float(F(v)) for v in vals]), mask=[v is None for v in vals])
+               for sid, vals in case["streams"].items()}
+        kw = {}
+        if case["has_time"]:
+            kw["time"] = cols["time"].to_numpy()
+        if case["has_z"]:
+            kw["z"] = cols["z"]
+        if case["has_pos"]:
+            kw["lat"], kw["lon"] = cols["lat"], cols["lon"]
+        return PandasStore(NumpyStream(inp=inp, **kw).run(cfg), axes)
     return PandasStore(PandasStream(df).run(cfg), axes)
 
 
@@ -607,6 +621,10 @@ def gen_store(tier, rng):
             continue
         cases.append(c)
         made += 1
+    for c in cases:
+        if c["mode"] == "pipe" and "time" not in c["streams"] and not any(s in c["streams"] for s in ("z", "lat", "lon")) \
+                and rng.random() < 0.25:
+            c["frontend"] = "numpy_masked"
     for c in cases:
         if c.get("domain", True) and rng.random() < 0.25:
             c["presave"] = rng.choice(["default", "data", "noaxes"])
